@@ -37,4 +37,8 @@ def scanPly1 (hist : List Nat) (rootHash newHash : Nat) (newHmc : Int) (multiPV 
   let l := hist ++ [rootHash]
   Rep.canClaimDrawRep (fun i => l.getD i 0) l.length newHmc (hist.length + (if multiPV then 1 else 0)) newHash
 
+/-- the scan over the hashes of the positions `l` with `posHashFirstNew` at (or within 3 below) the end of the list -/
+def scanOld (hash : P → Nat) (l : List P) (newHash : Nat) (newHmc firstNew : Int) : Bool :=
+  Rep.canClaimDrawRep (fun i => (l.map hash).getD i 0) l.length newHmc firstNew newHash
+
 end Hist
